@@ -405,6 +405,8 @@ req_compactor<T, C, A> req_compactor<T, C, A>::deserialize(std::istream& is, con
   auto num_sections = read<decltype(num_sections_)>(is);
   read<uint16_t>(is); // padding
   auto num_items = read<uint32_t>(is);
+  if (!is.good()) throw std::runtime_error("error reading from std::istream");
+  check_lg_weight(lg_weight);
   auto items = deserialize_items(is, serde, allocator, num_items);
   return req_compactor(hra, lg_weight, sorted, section_size_raw, num_sections, state, std::move(items), num_items,
       comparator, allocator);
@@ -436,7 +438,8 @@ template<typename T, typename C, typename A>
 template<typename S>
 std::pair<req_compactor<T, C, A>, size_t> req_compactor<T, C, A>::deserialize(const void* bytes, size_t size,
     const S& serde, const C& comparator, const A& allocator, bool sorted, bool hra) {
-  ensure_minimum_memory(size, 8);
+  // state, section_size_raw, lg_weight, num_sections, padding, num_items
+  ensure_minimum_memory(size, sizeof(uint64_t) + sizeof(float) + 2 * sizeof(uint8_t) + sizeof(uint16_t) + sizeof(uint32_t));
   const char* ptr = static_cast<const char*>(bytes);
   const char* end_ptr = static_cast<const char*>(bytes) + size;
 
@@ -451,6 +454,7 @@ std::pair<req_compactor<T, C, A>, size_t> req_compactor<T, C, A>::deserialize(co
   ptr += 2; // padding
   uint32_t num_items;
   ptr += copy_from_mem(ptr, num_items);
+  check_lg_weight(lg_weight);
   auto pair = deserialize_items(ptr, end_ptr - ptr, serde, allocator, num_items);
   ptr += pair.second;
   return std::pair<req_compactor, size_t>(
@@ -478,6 +482,7 @@ auto req_compactor<T, C, A>::deserialize_items(const void* bytes, size_t size, c
 -> std::pair<std::unique_ptr<T, items_deleter>, size_t> {
   const char* ptr = static_cast<const char*>(bytes);
   const char* end_ptr = static_cast<const char*>(bytes) + size;
+  ensure_minimum_memory(size, num); // every item occupies at least one byte: do not allocate what the input cannot hold
   A alloc(allocator);
   std::unique_ptr<T, items_deleter> items(alloc.allocate(num), items_deleter(allocator, false, num));
   ptr += serde.deserialize(ptr, end_ptr - ptr, items.get(), num);
@@ -489,6 +494,11 @@ auto req_compactor<T, C, A>::deserialize_items(const void* bytes, size_t size, c
   );
 }
 
+
+template<typename T, typename C, typename A>
+void req_compactor<T, C, A>::check_lg_weight(uint8_t lg_weight) {
+  if (lg_weight > 63) throw std::invalid_argument("Possible corruption: lg_weight must be less than 64, got " + std::to_string(lg_weight));
+}
 
 template<typename T, typename C, typename A>
 req_compactor<T, C, A>::req_compactor(bool hra, uint8_t lg_weight, bool sorted, float section_size_raw, uint8_t num_sections,
